@@ -52,7 +52,11 @@ func cliCase(f []string) string {
 	ioutil.WriteFile(filepath.Join(dir, "fc.json"), fb, 0644)
 	cb, _ := json.Marshal(parser.CommandConfig{AutoVarCommands: c.autovars})
 	ioutil.WriteFile(filepath.Join(dir, "cc.json"), cb, 0644)
-	args = append(args, "-fc", "fc.json", "-cc", "cc.json", fmt.Sprintf("-optimize=%v", c.optimize), fmt.Sprintf("-lm=%v", c.lm))
+	fcArg := "fc.json"
+	if c.nofc {
+		fcArg = "no_such_dir/font_config.json"
+	}
+	args = append(args, "-fc", fcArg, "-cc", "cc.json", fmt.Sprintf("-optimize=%v", c.optimize), fmt.Sprintf("-lm=%v", c.lm))
 	if c.deffont != "" {
 		args = append(args, "-f", c.deffont)
 	}
